@@ -365,6 +365,51 @@ def run(db, tier):
                 rep.bad("R-ARITH", key, loc, "panicking %s on %s operands in code reachable from text input, with no audited bound" % (t["msg"], "/".join(tys)))
     rep.floor("arithmetic asserts on small integers", n_ar, 50)
     rep.note("arithmetic asserts discharged by constant operands: %d of %d" % (n_dis, n_ar))
+    # ---------------- R-STR-SLICE: byte-index slicing of text
+    rep.rule("R-STR-SLICE", "every slice / split of a str by byte index (panics off a char boundary) is an audited site whose indices are boundaries by construction")
+    stab = json.load(open(os.path.join(VERIF, "engine", "tables", "c04_strslice.json")))["entries"]
+    n_sl = 0
+    per = {}
+    for f in sorted(db.fns.values(), key=lambda f: f.id):
+        if f.gen:
+            continue
+        for bi, t in f.calls():
+            c, fr, ga = t.get("f", ""), t.get("fr") or "", t.get("ga") or []
+            hit = None
+            if c == "core::ops::index::Index::index" and ga and ga[0] in ("str", "alloc::string::String") and len(ga) > 1 and "RangeFull" not in ga[1]:
+                hit = "index " + ga[1].rsplit("::", 1)[-1]
+            elif c in ("core::str::<impl str>::split_at", "core::str::<impl str>::split_at_mut", "alloc::string::String::split_off",
+                       "alloc::string::String::truncate", "alloc::string::String::insert", "alloc::string::String::insert_str",
+                       "alloc::string::String::remove", "alloc::string::String::drain", "alloc::string::String::replace_range"):
+                hit = c.rsplit("::", 1)[-1]
+            if hit:
+                n_sl += 1
+                per.setdefault(f.id, []).append((t["ln"], hit))
+    for fid, lst in sorted(per.items()):
+        f = db.fns[fid]
+        rep.fn(f)
+        ent = stab.get(fid)
+        allow = ent["allow"] if ent else 0
+        rep.check(len(lst) <= allow, "R-STR-SLICE", fid, "%s:%d" % (f.file, lst[0][0]),
+                  "%d byte-index slice(s) of text, audited: %s" % (len(lst), ent["reason"] if ent else ""),
+                  "%d byte-index slice(s) of text (%s) but only %d audited: an index that is not a char boundary (non-ASCII input) or out of range panics before any diagnostic"
+                  % (len(lst), ", ".join("line %d %s" % x for x in lst), allow))
+    rep.floor("byte-index text slices", n_sl, 9)
+
+    # ---------------- R-RECURSION: call-graph cycles
+    rep.rule("R-RECURSION", "every call-graph cycle lies inside an audited family whose recursion is bounded by the size/nesting of its input; "
+                            "recursion anywhere else (e.g. following file references) is unbounded by construction until audited")
+    fams = [(re.compile(x["re"]), x["reason"]) for x in json.load(open(os.path.join(VERIF, "engine", "tables", "c04_recursion.json")))["families"]]
+    sccs = db.recursive_sccs()
+    rep.floor("recursive call-graph components", len(sccs), 40)
+    for comp in sccs:
+        outside = [m for m in comp if not any(r.search(m) or (db.fns[m].parent and r.search(db.fns[m].parent)) for r, _ in fams)]
+        f0 = db.fns[comp[0]]
+        why = next((rs for r, rs in fams if r.search(comp[0])), "")
+        rep.check(not outside, "R-RECURSION", "cycle|" + comp[0] + ("|+%d" % (len(comp) - 1) if len(comp) > 1 else ""), f0.loc,
+                  "%d function(s): %s" % (len(comp), why[:160]),
+                  "call-graph cycle through %s is not in an audited recursion family: its depth is not bounded by the structure of the input "
+                  "(stack overflow instead of a diagnostic)" % ", ".join(outside[:4]))
     return rep
 
 
